@@ -69,6 +69,37 @@ func (t *tree) phased() bool { return t.Late >= 1 && t.Late < len(t.Items) }
 var patRank = []string{"/x", "/", "", "/:id", "/*", "/X"}
 var prefixRank = []string{"/api", "/", "/a-b", "/API", "/api/", "/:t"}
 
+// richMode is the mode of the parameterised-prefix family ("prefixes with every parameter kind"):
+// requests are derived with distinct values per parameter position (instantiateRich), handlers
+// report every way of reading parameters (build.go mkHandler) and the minimiser ranks the letters
+// of that family. One process explores the other families first and then switches the mode once
+// (the workers are single-threaded); the text form of a tree of this mode starts with "params:".
+var richMode bool
+
+var richPatRank = []string{"/x", "/", "/:id", "/:id?", "/:id<int>", "/:t", "/*", "/+", "/o/*"}
+var richPrefixRank = []string{"/api", "/:t", "/:t?", "/:t<int>", "/:t/:u", "/*", "/+", "/f/*/by", "/p/+/q", "/*/+"}
+
+func patRanks() []string {
+	if richMode {
+		return richPatRank
+	}
+	return patRank
+}
+
+func prefixRanks() []string {
+	if richMode {
+		return richPrefixRank
+	}
+	return prefixRank
+}
+
+func modePrefix() string {
+	if richMode {
+		return "params:"
+	}
+	return ""
+}
+
 func rankOf(list []string, s string) int {
 	for i, v := range list {
 		if v == s {
@@ -221,6 +252,9 @@ type treeInfo struct {
 }
 
 func analyse(t *tree) *treeInfo {
+	if richMode {
+		return analyseRich(t)
+	}
 	ti := &treeInfo{}
 	set := map[string]struct{}{"/": {}, "/zzz": {}}
 	add := func(p string) {
@@ -312,6 +346,160 @@ func analyse(t *tree) *treeInfo {
 	return ti
 }
 
+// analyseRich is analyse for the parameterised-prefix family: the same structure information, the
+// request paths are the instantiations of every full pattern and every container prefix with
+// distinct values per parameter position (instantiateRich).
+func analyseRich(t *tree) *treeInfo {
+	ti := &treeInfo{}
+	set := map[string]struct{}{"/": {}, "/zzz": {}}
+	add := func(p string) {
+		if p == "" {
+			p = "/"
+		}
+		if p[0] != '/' {
+			return
+		}
+		set[p] = struct{}{}
+	}
+	top := 0
+	var rec func(items []*node, chain []*node, acc string, depth int)
+	rec = func(items []*node, chain []*node, acc string, depth int) {
+		for i, n := range items {
+			if depth == 0 {
+				top = i
+			}
+			if n.T == 'r' {
+				full := n.Pat
+				if depth > 0 {
+					full = refJoin(acc, n.Pat)
+				}
+				id := len(ti.leaves)
+				ti.leaves = append(ti.leaves, leafInfo{n: n, chain: append([]*node(nil), chain...), full: full, top: top})
+				if depth > 0 {
+					ti.inside |= 1 << id
+				}
+				for _, c := range chain {
+					if c.T == 'm' {
+						ti.insideM |= 1 << id
+					}
+				}
+				vs := instantiateRich(full)
+				for _, p := range vs {
+					add(p)
+				}
+				p := vs[0]
+				if strings.HasSuffix(p, "/") && len(p) > 1 {
+					add(strings.TrimRight(p, "/"))
+				} else if p != "" && p != "/" {
+					add(p + "/")
+				}
+				if up := strings.ToUpper(p); up != p {
+					add(up)
+				}
+				if n.Kind == kUSE {
+					q := strings.TrimRight(p, "/")
+					add(q + "/z")
+					add(q + "z")
+				}
+				continue
+			}
+			ti.hasCont = true
+			if n.T == 'm' {
+				ti.hasMount = true
+			}
+			nacc := n.Prefix
+			if depth > 0 {
+				nacc = refJoin(acc, n.Prefix)
+			}
+			nchain := append(append([]*node(nil), chain...), n)
+			ti.containers = append(ti.containers, nchain)
+			ti.contTop = append(ti.contTop, top)
+			vs := instantiateRich(nacc)
+			add(strings.TrimRight(vs[0], "/"))
+			add(strings.TrimRight(vs[0], "/") + "/")
+			if len(vs) > 1 {
+				add(vs[1])
+			}
+			rec(n.Items, nchain, nacc, depth+1)
+		}
+	}
+	rec(t.Items, nil, "", 0)
+	ti.paths = make([]string, 0, len(set))
+	for p := range set {
+		ti.paths = append(ti.paths, p)
+	}
+	sort.Strings(ti.paths)
+	return ti
+}
+
+// instantiateRich lists request paths for a full pattern whose segments are constants, ":name",
+// ":name?", ":name<int>", "*" or "+". The k-th parameter of the WHOLE pattern gets the k-th value
+// of its own (a, b, c, ...; 1, 2, 3, ... for <int>), so that a value read under the wrong name or
+// position is visible. Variants: [0] one segment per parameter; then two segments for every "*"
+// and "+"; every optional parameter (":name?", "*") absent; letters for every <int> parameter.
+func instantiateRich(full string) []string {
+	if full == "" {
+		return []string{"/"}
+	}
+	segs := strings.Split(full, "/")
+	build := func(variant int) string {
+		var out []string
+		k := 0
+		for i, sg := range segs {
+			if i == 0 && sg == "" {
+				out = append(out, "")
+				continue
+			}
+			letter := string(rune('a' + k%26))
+			switch {
+			case sg == "*" || sg == "+":
+				k++
+				switch {
+				case variant == 1:
+					out = append(out, letter+"/"+letter+"2")
+				case variant == 2 && sg == "*":
+					// absent
+				default:
+					out = append(out, letter)
+				}
+			case strings.HasPrefix(sg, ":") && strings.HasSuffix(sg, "?"):
+				k++
+				if variant != 2 {
+					out = append(out, letter)
+				}
+			case strings.HasPrefix(sg, ":") && strings.HasSuffix(sg, "<int>"):
+				k++
+				if variant == 3 {
+					out = append(out, letter)
+				} else {
+					out = append(out, string(rune('0'+k%10)))
+				}
+			case strings.HasPrefix(sg, ":"):
+				k++
+				out = append(out, letter)
+			default:
+				out = append(out, sg)
+			}
+		}
+		p := strings.Join(out, "/")
+		if p == "" {
+			p = "/"
+		}
+		return p
+	}
+	res := []string{build(0)}
+	if strings.ContainsAny(full, "*+") {
+		res = append(res, build(1))
+	}
+	if strings.ContainsAny(full, "*?") {
+		res = append(res, build(2))
+	}
+	if strings.Contains(full, "<int>") {
+		res = append(res, build(3))
+	}
+	return res
+}
+
 // lateMask: bit i is set when leaf i is registered after start-up in the two-phase program t.
 func (ti *treeInfo) lateMask(t *tree) uint32 {
 	var m uint32
@@ -383,7 +571,7 @@ func (t *tree) measure() [5]int {
 		for _, n := range items {
 			m[0]++
 			if n.T == 'r' {
-				m[3] += int(n.Kind)*100 + rankOf(patRank, n.Pat)*10
+				m[3] += int(n.Kind)*100 + rankOf(patRanks(), n.Pat)*10
 				if n.Next {
 					m[3]++
 				}
@@ -395,7 +583,7 @@ func (t *tree) measure() [5]int {
 			if t.Late > 0 {
 				m[1]++ // two-phase programs: a route is simpler than a container (empty group -> route)
 			}
-			m[2] += rankOf(prefixRank, n.Prefix)
+			m[2] += rankOf(prefixRanks(), n.Prefix)
 			rec(n.Items)
 		}
 	}
@@ -496,7 +684,7 @@ func (t *tree) candidates() []*tree {
 			c := t.clone()
 			p, i := at(c, a)
 			if n := (*p)[i]; n.T == 'g' && len(n.Items) == 0 {
-				(*p)[i] = &node{T: 'r', Kind: kGET, Pat: patRank[0]}
+				(*p)[i] = &node{T: 'r', Kind: kGET, Pat: patRanks()[0]}
 				emit(c)
 			}
 		}
@@ -508,10 +696,10 @@ func (t *tree) candidates() []*tree {
 		if n0.T == 'r' {
 			continue
 		}
-		for r := 0; r < rankOf(prefixRank, n0.Prefix); r++ {
+		for r := 0; r < rankOf(prefixRanks(), n0.Prefix); r++ {
 			c := t.clone()
 			p, i := at(c, a)
-			(*p)[i].Prefix = prefixRank[r]
+			(*p)[i].Prefix = prefixRanks()[r]
 			emit(c)
 		}
 	}
@@ -524,13 +712,13 @@ func (t *tree) candidates() []*tree {
 			continue
 		}
 		seenP[n0.Prefix] = true
-		for r := 0; r < rankOf(prefixRank, n0.Prefix); r++ {
+		for r := 0; r < rankOf(prefixRanks(), n0.Prefix); r++ {
 			c := t.clone()
 			changed := 0
 			for _, b := range addrs {
 				p, i := at(c, b)
 				if (*p)[i].T != 'r' && (*p)[i].Prefix == n0.Prefix {
-					(*p)[i].Prefix = prefixRank[r]
+					(*p)[i].Prefix = prefixRanks()[r]
 					changed++
 				}
 			}
@@ -552,10 +740,10 @@ func (t *tree) candidates() []*tree {
 			(*p)[i].Kind = k
 			emit(c)
 		}
-		for r := 0; r < rankOf(patRank, n0.Pat); r++ {
+		for r := 0; r < rankOf(patRanks(), n0.Pat); r++ {
 			c := t.clone()
 			p, i := at(c, a)
-			(*p)[i].Pat = patRank[r]
+			(*p)[i].Pat = patRanks()[r]
 			emit(c)
 		}
 		if n0.Next {
@@ -575,6 +763,10 @@ func parseTree(s string) (t *tree, err error) {
 			t, err = nil, fmt.Errorf("bad tree text: %v", r)
 		}
 	}()
+	if strings.HasPrefix(s, "params:") { // a tree of the parameterised-prefix family: switch the mode (replay, -tree)
+		richMode = true
+		s = s[len("params:"):]
+	}
 	pos := 0
 	skip := func() {
 		for pos < len(s) && (s[pos] == ' ' || s[pos] == ';') {
